@@ -4,7 +4,7 @@
    the hand-written driver.  No Extract Constant. *)
 From Coq Require Extraction.
 From Coq Require Import ExtrOcamlBasic.
-From ASModel Require Import Base SetMatch SrcLoc Report PathRes Tokens Ast IR Expand Nodes Print.
+From ASModel Require Import Base SetMatch SrcLoc Report PathRes Tokens Ast IR Expand Nodes Print Binders.
 Extraction Language OCaml.
 Set Extraction KeepSingleton.
 Extraction "model.ml"
@@ -13,4 +13,4 @@ Extraction "model.ml"
   SrcLoc.linecol SrcLoc.prefix_len SrcLoc.is_boundary SrcLoc.blen
   Report.error_label Report.node_display Report.fallback_display
   PathRes.absolute_source_path PathRes.absolute_source_path_old PathRes.components
-  Print.expand_top Nodes.gen_nodes Nodes.location Expand.expand Nodes.node_kind_of.
+  Print.expand_top Nodes.gen_nodes Nodes.location Expand.expand Nodes.node_kind_of Binders.stmt_binders Binders.reserved.
